@@ -50,6 +50,31 @@ class ElabWorld(world.World):
             return wrapper
         return deco
 
+    def foreign_obj(self, k):
+        W = self
+
+        def deco(fn):
+            wrapper = ForeignObj(fn)
+            W.foreign_ids[id(wrapper)] = k
+            W.keep.append(wrapper)
+            return wrapper
+        return deco
+
+
+class ForeignObj:
+    """what a class-based decorator returns: a callable object that binds like a function"""
+
+    def __init__(self, fn):
+        functools.update_wrapper(self, fn)
+        self._fn = fn
+
+    def __call__(self, *a, **kw):
+        return self._fn(*a, **kw)
+
+    def __get__(self, obj, objtype=None):
+        import types
+        return self if obj is None else types.MethodType(self, obj)
+
 
 def role_of(W, f):
     if id(f) in W.foreign_ids:
@@ -156,6 +181,8 @@ def view_along(W, mro, name):
             return ["func", "classm", view_func(W, raw.__func__)]
         if isinstance(raw, property):
             return ["prop"] + [view_func(W, a) if a is not None else None for a in (raw.fget, raw.fset, raw.fdel)]
+        if isinstance(raw, ForeignObj):
+            return ["func", "plain", view_func(W, raw)]
         if inspect.isfunction(raw):
             v = view_func(W, raw)
             owner = pass_on_owner(raw)
